@@ -1,6 +1,6 @@
 (* Properties_C03.v — the theorems that decide property C03 on the model, each stated in full and closed by
    `exact <lemma>`; the lemmas live in the Proofs_*.v files.  Nothing else belongs in this file. *)
-From Theo Require Import Base VMModel VMSpec VMStatements VMCheck VMCheckStatements Proofs_VMCheck GenWfStatements Tokens Errors MacroExtract Parser GenModel CompileStatements Proofs_GenWf.
+From Theo Require Import Base VMModel VMSpec VMStatements VMCheck VMCheckStatements Proofs_VMCheck GenWfStatements Tokens Errors MacroExtract Parser GenModel CompileStatements Proofs_GenWf CompiledStatements Regex Lexer Scan Grammar LR MacroApply Compile Gen_Lexer Gen_Consts Proofs_Compiled.
 Local Open Scope Z_scope.
 Local Open Scope Z_scope.
 
@@ -47,3 +47,14 @@ Theorem C03_gen_safe :
                         zlen (stack s) <= zlen (exec_targets (gr_prog r)) + 1.
 Proof. exact C03_gen_safe_proof. Qed.
 Print Assumptions C03_gen_safe.
+
+Theorem C03_compiled :
+  forall files main c,
+    compile files main = Ok c -> cr_ok c = true ->
+    (forall h fuel,
+       run_hist fuel h (init (cr_prog c)) = Fuel \/
+       exists s, run_hist fuel h (init (cr_prog c)) = Ok s /\ (exists b, isDone s = Ok b) /\ (exists v, views s = Ok v)) /\
+    (forall k, exists s, vm_run k (init (cr_prog c)) = Ok s /\
+                         zlen (stack s) <= zlen (exec_targets (cr_prog c)) + 1).
+Proof. exact C03_compiled_proof. Qed.
+Print Assumptions C03_compiled.
